@@ -137,6 +137,13 @@ def cases(tier, seed, args):
                             K=K, F=F, T=T, seed=int(rng.integers(1 << 30)),
                             metric=['cos', 'euclidean', 'multiply'][(i // 4) % 3],
                             alg=['greedy', 'optimal'][(i // 12) % 2]))
+    if prop == 'C16trace':
+        for i in range(24 if q else 240):
+            out.append(dict(t='dhtv_trace', K=int(rng.integers(1, 5)), F=int(rng.choice([1, 3, 5, 9, 13] if q else [1, 3, 5, 9, 17, 33])),
+                            T=int(rng.integers(1, 9)), seed=int(rng.integers(1 << 30)),
+                            metric=['cos', 'euclidean', 'multiply'][i % 3], alg=['greedy', 'optimal'][(i // 3) % 2],
+                            regime=['float', 'permuted', 'float', 'zero'][(i // 6) % 4]))
+    if prop == 'C16':
         n = 30 if q else 300
         for i in range(n):
             K = int(rng.integers(1, 5))
@@ -438,8 +445,78 @@ def _consist(case):
     return [rec]
 
 
+def _gaps(S):
+    K = S.shape[0]
+    perms = list(itertools.permutations(range(K)))
+    Sf = [[Fraction(float(x)) for x in row] for row in S]
+    tot = [sum(Sf[i][p[i]] for i in range(K)) for p in perms]
+    unit = Fraction(float(np.finfo(float).eps)) * max(sum(abs(x) for row in Sf for x in row), Fraction(1, 10 ** 300))
+    best = max(tot)
+    return [int(min((best - t) / unit, 1 << 28)) for t in tot]
+
+
+def _dhtv_trace(case):
+    """hook events of one DHTV call as records for Trace_DHTV.tla"""
+    from pb_bss import _verif
+    rng = np.random.default_rng(case['seed'])
+    K, F, T = case['K'], case['F'], case['T']
+    mask = rng.random((K, F, T)) if case['regime'] == 'float' else _mask(rng, K, F, T, case['regime'], 'float64')
+    if case['regime'] == 'permuted':
+        ref = _structured(rng, K, F, T)
+        field = np.stack([rng.permutation(K) for _ in range(F)], axis=1)
+        mask = pa.apply_mapping(ref, field)
+    width = int(rng.integers(1, F + 1))
+    start = int(rng.integers(0, F - width + 1))
+    shift = int(rng.integers(1, width + 1))
+    cfg = dict(stft=2 * (F - 1), start=start, width=width, shift=shift, main=int(rng.integers(1, 5)), sub=int(rng.integers(1, 3)))
+    al = pa.DHTVPermutationAlignment(stft_size=cfg['stft'], segment_start=start, segment_width=width, segment_shift=shift,
+                                     main_iterations=cfg['main'], sub_iterations=cfg['sub'],
+                                     similarity_metric=case['metric'], algorithm=case['alg'])
+    ev = []
+    cb = lambda e, f: ev.append((e, dict(f))) if e.startswith('dhtv') else None
+    _verif.register(cb)
+    try:
+        mapping, exc = _call(al.calculate_mapping, mask)
+    finally:
+        _verif.unregister(cb)
+    fp = f'dhtvtrace;metric={case["metric"]};alg={case["alg"]};regime={case["regime"]}'
+    recs = []
+    feat0 = None
+    last_score = None
+    for e, f in ev:
+        if e == 'dhtv_start':
+            feat0 = f['features']
+            endf = [x[1]['features'] for x in ev if x[0] == 'dhtv_end']
+            ids = _rowids(feat0, *(endf[:1]))
+            recs.append(dict(kind='start', ids=ids[0], fv=enc.aflt(feat0), plan=[[int(x) for x in p] for p in f['plan']],
+                             metric=case['metric'], alg=case['alg'], **cfg))
+            end_ids = ids[1] if len(ids) > 1 else []
+        elif e == 'dhtv_iter':
+            recs.append(dict(kind='iter', s=int(f['start']), e=int(f['end']), it=int(f['iteration']), cen=enc.aflt(f['centroid'])))
+        elif e == 'dhtv_score':
+            last_score = np.asarray(f['score'], dtype=float)
+        elif e == 'dhtv_bin':
+            recs.append(dict(kind='bin', f=int(f['f']), S=enc.aflt(last_score), R=enc.ranks(last_score),
+                             rp=enc.aint(f['reverse_permutation']),
+                             gaps=_gaps(last_score) if case['alg'] == 'optimal' else []))
+        elif e == 'dhtv_iter_end':
+            recs.append(dict(kind='iter_end', nothing_changed=bool(f['nothing_changed'])))
+        elif e == 'dhtv_end':
+            recs.append(dict(kind='end', mapping=enc.aint(f['mapping']), ids=end_ids))
+    if exc:
+        recs.append(dict(kind='end', mapping=[], ids=[], exc=exc))
+    for r in recs:
+        r.setdefault('exc', '')
+        r['tid'] = case['seed']
+        r['fp'] = fp + ';' + r['kind']
+        r['key'] = f'dt:{case["seed"]}:{len(recs)}'
+    return recs
+
+
 def run_case(case):
     t = case['t']
+    if t == 'dhtv_trace':
+        return _dhtv_trace(case)
     if t == 'plan':
         return _plan(case)
     if t in ('dhtvx', 'greedyx', 'oraclex'):
